@@ -240,11 +240,19 @@ Definition script_ltbl_put (Sz : sizes) (g : gst) (uniq top fwd : bool) (key ns 
     mkR (e0 ++ e1 ++ e2 ++ cp n1 dfrom ds ++ map Free (flat_map efree (if fwd then gone else rev gone))) Done
         (mkG (hdr g) (if top then new :: kept else kept ++ [new])) true
   else nomut g (e0 ++ e1 ++ e2 ++ (if a0 then [Free n] else []) ++ (if a1 then [Free n1] else []) ++ (if a2 then [Free n2] else [])) Failed.
-Definition script_ltbl_remove (g : gst) (fwd : bool) (key : N) : sres gst :=
+(* qlisttbl_remove (as repaired): every object of that name is released in look-up order, except that when the caller searches
+   with the name stored in one of them (own = its position among the matches in look-up order; the pointer was handed out by
+   getnext()/get without a copy) that object is kept until the search is over and released last *)
+Definition own_last (own : option nat) (l : list elem) : list elem :=
+  match own with
+  | None => l
+  | Some i => match split_pos i l with Some (p, e, q) => p ++ q ++ [e] | None => l end
+  end.
+Definition script_ltbl_remove (g : gst) (fwd : bool) (key : N) (own : option nat) : sres gst :=
   let gone := filter (keyis key) (els g) in
   match gone with
   | [] => nomut g [] Nothing
-  | _ => mkR (map Free (flat_map efree (if fwd then gone else rev gone))) Done (mkG (hdr g) (filter (fun e => negb (keyis key e)) (els g))) true
+  | _ => mkR (map Free (flat_map efree (own_last own (if fwd then gone else rev gone)))) Done (mkG (hdr g) (filter (fun e => negb (keyis key e)) (els g))) true
   end.
 (* getmulti with newmem (as repaired): for every match getnext() makes a key copy and a value copy (both requested, then checked),
    the result array grows by realloc at 1, 10, 20, 40 ... objects, the key copy is released again; on any failure everything
@@ -285,7 +293,7 @@ Definition script_ltbl_getmulti (Sz : sizes) (g : gst) (fwd : bool) (key : N) (n
   let '(e, o) := gm_loop Sz al (if fwd then ms else rev ms) n 0%nat None 0 0 [] in
   nomut g e o.
 
-Inductive lop := LPut (uniq top fwd : bool) (key ns ds : N) | LPutf (uniq top fwd : bool) (key ns len : N) | LGet (pos : nat) | LGetmulti (fwd : bool) (key : N) | LRemove (fwd : bool) (key : N)
+Inductive lop := LPut (uniq top fwd : bool) (key ns ds : N) | LPutf (uniq top fwd : bool) (key ns len : N) | LGet (pos : nat) | LGetmulti (fwd : bool) (key : N) | LRemove (fwd : bool) (key : N) (own : option nat)
                | LNext (pos : nat) | LNone | LClear.
 Definition ltbl_step (Sz : sizes) (g : gst) (o : lop) (n : N) (al : nat -> bool) : sres gst :=
   match o with
@@ -293,7 +301,7 @@ Definition ltbl_step (Sz : sizes) (g : gst) (o : lop) (n : N) (al : nat -> bool)
   | LPutf uniq top fwd key ns len => with_tmp g len n al (fun g1 t n1 al1 => script_ltbl_put Sz g1 uniq top fwd key ns (len + 1) (SBlk t) n1 al1)
   | LGet pos => match split_pos pos (els g) with Some (_, e, _) => script_getdata g e n al | None => nomut g [] Nothing end
   | LGetmulti fwd key => script_ltbl_getmulti Sz g fwd key n al
-  | LRemove fwd key => script_ltbl_remove g fwd key
+  | LRemove fwd key own => script_ltbl_remove g fwd key own
   | LNext pos => match split_pos pos (els g) with Some (_, e, _) => script_getpair true g e n al | None => nomut g [] Nothing end
   | LNone => nomut g [] Nothing
   | LClear => script_clear g
